@@ -215,6 +215,10 @@ def client(cl):
     return _clients[cl["name"]]
 
 
+def is_validity_client(cl):
+    return any("-" in c for _, layout in cl["fed"] for _, certs in layout for c in certs)
+
+
 def only_on(cl):
     return True if cl["only_md"] is None else cl["only_md"]
 
@@ -524,6 +528,8 @@ def unit_documents(ctx):
                 continue        # the embedded certificate is not looked at with the setting on (covered at response level)
             if ctx.quick and (cl["was"] or cl["wrs"]) and (key not in ("idp", "idp2") or iname not in ("idp1", "idp2") or oname == "unknown"):
                 continue
+            if ctx.quick and is_validity_client(cl) and ((oname, okey) not in (("idp2", None), ("idp1", "idp")) or key == "sp"):
+                continue        # the validity federations: two of the five outer elements (all of them in the thorough tier)
             g = dict(op="doc", doc=d)
             remember(cl, g)
             accepted, got = run_op(client(cl), g)
@@ -610,6 +616,8 @@ def unit_direct(ctx):
             if ctx.quick and only_on(cl) and embed is None:
                 continue
             if ctx.quick and oname in ("prefix", "upper", "suffix", "idp1-inner-space") and aname not in ("absent", "idp1"):
+                continue
+            if ctx.quick and is_validity_client(cl) and (aname not in ("absent", "idp1", "idp2") or oname in ("idp2-nbsp", "idp1-inner-space", "prefix", "upper", "suffix")):
                 continue
             i += 1
             entries = ["check_signature", "_check_signature"] if not ctx.quick else [["check_signature", "_check_signature"][i % 2]]
